@@ -1,10 +1,97 @@
-(* C03 — heavy hitters never over-count and never report an absent key.
-   Only theorem statements; every proof is `exact <lemma>` from theories/HHProofs.v. *)
-From Coq Require Import ZArith List.
-From Sketchnu Require Import Machine Consts HH.
+(* C03 — heavy hitters never over-count and never report a key that was not added.
+   Only theorem statements; every proof is `exact <lemma>` from theories/HHProofs.v.
+   The model (theories/HH.v) is proved for every width, depth, max_key_len <= 255, every bucket
+   function with columns below width and every default-threshold function. *)
+From Coq Require Import ZArith List Lia.
+From Sketchnu Require Import Machine Consts HH HHProofs.
 Import ListNotations.
 Open Scope Z_scope.
 
-Example C03_model_runs :
-  hh_get 1 4 (fun _ _ => O) (hh_add 1 4 (fun _ _ => O) (hh_add 1 4 (fun _ _ => O) (hh_empty 4) [97;0] 5) [97] 3) [97] = 0.
-Proof. vm_compute. reflexivity. Qed.
+(* the cap used by the model is the constant read out of heavyhitters.py on this run *)
+Theorem C03_cap : hh_cap = 2^32 - 1.
+Proof. exact cap_val. Qed.
+Print Assumptions C03_cap.
+
+(* padded array and length together determine the byte string (the comparison of the repaired code) *)
+Theorem pad_len_inj : forall (max_key_len : nat) (a b : key),
+  (length a <= max_key_len)%nat -> (length b <= max_key_len)%nat ->
+  pad max_key_len a = pad max_key_len b -> length a = length b -> a = b.
+Proof. exact HHProofs.pad_len_inj. Qed.
+Print Assumptions pad_len_inj.
+
+(* cell invariant: the count of the stored key is at most the multiplicity of that key, and a stored
+   key with a positive count sits in its own column *)
+Theorem hh_cell_sound : forall width depth max_key_len bucket default_thr,
+  (forall r k, (bucket r k < width)%nat) -> (max_key_len <= 255)%nat ->
+  forall h r c, wf h ->
+  let cl := tab (eval width depth max_key_len bucket default_thr h) r c in
+  cnt cl <= truth max_key_len h (stored cl) /\ (0 < cnt cl -> (r < depth)%nat /\ bucket r (stored cl) = c).
+Proof. exact HHProofs.hh_cell_sound. Qed.
+Print Assumptions hh_cell_sound.
+
+Theorem C03_getitem : forall width depth max_key_len bucket default_thr,
+  (forall r k, (bucket r k < width)%nat) -> (max_key_len <= 255)%nat ->
+  forall h k, wf h ->
+  hh_get depth max_key_len bucket (eval width depth max_key_len bucket default_thr h) k
+  <= truth max_key_len h (ident max_key_len k).
+Proof. exact C03_getitem_lemma. Qed.
+Print Assumptions C03_getitem.
+
+Theorem C03_query : forall width depth max_key_len bucket default_thr,
+  (forall r k, (bucket r k < width)%nat) -> (max_key_len <= 255)%nat ->
+  forall h (k thr : option Z) x n, wf h ->
+  In (x, n) (snd (hh_query width depth max_key_len bucket default_thr
+                           (eval width depth max_key_len bucket default_thr h) k thr)) ->
+  0 < n <= truth max_key_len h x.
+Proof. exact C03_query_lemma. Qed.
+Print Assumptions C03_query.
+
+(* the entry points that are not history constructors are sequences of adds *)
+Theorem C03_update_list : forall width depth max_key_len bucket default_thr h ks,
+  eval width depth max_key_len bucket default_thr (HUpdateList h ks)
+  = hh_update_list depth max_key_len bucket (eval width depth max_key_len bucket default_thr h) ks.
+Proof. exact eval_update_list. Qed.
+Print Assumptions C03_update_list.
+Theorem C03_update_dict : forall width depth max_key_len bucket default_thr h kvs,
+  eval width depth max_key_len bucket default_thr (HUpdateDict h kvs)
+  = hh_update_dict depth max_key_len bucket (eval width depth max_key_len bucket default_thr h) kvs.
+Proof. exact eval_update_dict. Qed.
+Print Assumptions C03_update_dict.
+Theorem C03_update_ngram : forall width depth max_key_len bucket default_thr h ks n,
+  eval width depth max_key_len bucket default_thr (HUpdateNgram h ks n)
+  = hh_update_ngram depth max_key_len bucket (eval width depth max_key_len bucket default_thr h) ks n.
+Proof. exact eval_update_ngram. Qed.
+Print Assumptions C03_update_ngram.
+Theorem C03_ngram_is_adds : forall width depth max_key_len bucket default_thr h k n,
+  eval width depth max_key_len bucket default_thr (HWindows h k n)
+  = eval width depth max_key_len bucket default_thr (HNgram h k n)
+  /\ forall x, truth max_key_len (HWindows h k n) x = truth max_key_len (HNgram h k n) x.
+Proof. exact ngram_is_adds. Qed.
+Print Assumptions C03_ngram_is_adds.
+
+(* F1: with the matching rule of the unrepaired tree (bytes only) the property is false *)
+Theorem C03_refuted_prefix :
+  exists h k, hh_get_unfixed 1 4 (fun _ _ => O) (eval_unfixed 1 1 4 (fun _ _ => O) h) k > truth 4 h (ident 4 k).
+Proof. exact C03_refuted_lemma. Qed.
+Print Assumptions C03_refuted_prefix.
+
+(* non-vacuity: a width-1 sketch where every key collides, NUL-suffixed aliases, a multiplicity
+   beyond 2^32, an ngram add, a merge and a save/load *)
+Definition C03_h0 : hist :=
+  HSaveLoad (HMerge (HAdd (HAdd (HAdd HEmpty [97;0] 5) [97] 3) [] 4294967297)
+                    (HNgram (HAdd HEmpty [97] 7) [97;98;99] 2)).
+Example C03_nonvacuous :
+  wf C03_h0 /\
+  let b := fun (_ : nat) (_ : key) => O in
+  let s := eval 1 2 2 b (fun n => n / 2) C03_h0 in
+  (hh_get 2 2 b s [], truth 2 C03_h0 [], truth 2 C03_h0 [97], truth 2 C03_h0 [97;0], truth 2 C03_h0 [97;98])
+  = (4294967288, 4294967297, 10, 5, 1) /\
+  snd (hh_query 1 2 2 b (fun n => n / 2) s None (Some 0)) = [([], 4294967288)].
+Proof. split; [cbn; repeat split; lia|]. vm_compute. split; reflexivity. Qed.
+
+Example C03_alias_keys_differ :
+  pad 4 [97;0] = pad 4 [97] /\ [97;0] <> [97] /\
+  let b := fun (_ : nat) (_ : key) => O in
+  let s := hh_add 1 4 b (hh_add 1 4 b (hh_empty 4) [97;0] 5) [97] 3 in
+  (hh_get 1 4 b s [97], hh_get 1 4 b s [97;0]) = (0, 2).
+Proof. split; [reflexivity|split; [discriminate|vm_compute; reflexivity]]. Qed.
